@@ -13,6 +13,10 @@ from mcx.ref import grammar
 
 # one representative per class: lower, upper, digit, underscore, dot, hyphen,
 # colon, slash, non-ASCII letter, space  (+ a non-ASCII digit in thorough)
+# further members of the "non-ASCII" class that regular-expression engines
+# treat specially: letters that case-fold into ASCII (long s, Kelvin sign,
+# dotless i, dotted I), a non-ASCII digit, a fullwidth letter, and NUL / LF
+SPECIALS = '\u017f\u212a\u0131\u0130\u0663\uff21\x00\n'
 ALPHABET_Q = 'aZ1_.-:/é '
 ALPHABET_T = 'aZ1_.-:/é ٣\n'
 
@@ -276,15 +280,24 @@ def run(ctx):
         'name-carrying constructor slots, the wire content re-read by the '
         'reference parser. state = distinct string, transition = one '
         'validator/constructor call. non-trivial = string accepted by at '
-        'least one grammar' % (L, alphabet, Lslot))
+        'least one grammar. Also every string of length <= %d over that '
+        'alphabet extended with %r (case-folding letters, a non-ASCII digit, '
+        'a fullwidth letter, NUL, LF)' % (L, alphabet, Lslot,
+                                          4 if ctx.quick else 5, SPECIALS))
     ctx.bounds = {'alphabet': alphabet, 'max_len': L, 'slot_max_len': Lslot}
     ctx.assumptions = ['reference recognisers in mcx/ref/grammar.py are a '
                        'correct reading of the specification']
     tasks = [(alphabet, '', L)] + [(alphabet, ch, L) for ch in alphabet]
+    # every string containing at least one special character, up to length
+    # Ls, over the class alphabet extended with the specials
+    Ls = 4 if ctx.quick else 5
+    ext = ''.join(dict.fromkeys(ALPHABET_Q + SPECIALS))
+    tasks += [(ext, ch, Ls) for ch in ext]
     ctx.map(_task_strings, tasks)
     ctx.map(_task_long, [0])
     ctx.map(_task_slots, [(alphabet, ch, Lslot) for ch in alphabet]
-            + [(alphabet, '', 1)])
+            + [(alphabet, '', 1)]
+            + [(ext, ch, 3) for ch in SPECIALS])
     ctx.map(_task_slots_special, [0])
     n = sum(len(alphabet) ** i for i in range(L + 1))
     ctx.part('validators', strings=n, complete=True)
